@@ -7,8 +7,8 @@
 package hfs
 
 import (
-	"os"
 	"bytes"
+	"os"
 	"strings"
 
 	"github.com/hashicorp/raft"
@@ -425,3 +425,45 @@ func HarnessMetaRecord() {
 }
 
 func init() { Harnesses["HarnessMetaRecord"] = HarnessMetaRecord }
+
+// HarnessCreateSizes (C07): "new segment files are created exclusively and zero-filled to
+// the requested size" - for EVERY requested size: the size is one symbolic integer (1 byte ..
+// 128 MiB + 1), so every chunking, rounding or remainder in the preallocation path is a
+// solver query, not a sampled value. After fs.Create the file exists under the requested
+// name with exactly the requested length, it was opened O_CREATE|O_EXCL|O_RDWR, some
+// successful extending preallocation covered the whole size, and a second Create of the same
+// name fails.
+func HarnessCreateSizes() {
+	dir := vrt.TempDir()
+	if !vrt.Symbolic() {
+		defer os.RemoveAll(dir) // natively a real directory with a file of up to 128 MiB
+	}
+	size := vrt.U64("size")
+	vrt.Assume(size >= 1 && size <= 128<<20+1)
+	vfs := fs.New()
+	f, err := vfs.Create(dir, "00000000000000000001-0000000000000001.wal", size)
+	vrt.Assert("C07.create-ok", err == nil)
+	if err != nil {
+		return
+	}
+	path := dir + "/00000000000000000001-0000000000000001.wal"
+	vrt.Assert("C07.created-file-has-the-requested-size", vrt.FileSize(path) == size)
+	// (the event trace exists under the engine only; natively strace plays that part in HarnessFS)
+	covered, excl := !vrt.Symbolic(), !vrt.Symbolic()
+	for _, e := range vrt.Events() {
+		if e.Op == "fallocate" && e.OK && e.Path == path && e.B == 1 && e.A == size {
+			covered = true
+		}
+		if e.Op == "open" && e.OK && e.Path == path && e.A&oCREATE != 0 {
+			excl = e.A&(oCREATE|oEXCL|oRDWR) == oCREATE|oEXCL|oRDWR
+		}
+	}
+	vrt.Assert("C07.preallocation-covers-the-requested-size", covered)
+	vrt.Assert("C07.create-exclusive-rdwr", excl)
+	f.Close()
+	_, err = vfs.Create(dir, "00000000000000000001-0000000000000001.wal", size)
+	vrt.Assert("C07.second-create-of-the-same-name-fails", err != nil)
+	vrt.Reach("create-sizes-checked")
+}
+
+func init() { Harnesses["HarnessCreateSizes"] = HarnessCreateSizes }
